@@ -187,10 +187,13 @@ func genC09(run *hx.Run, r *hx.Rng) {
 		if i%5 == 1 {
 			targetedC09(run, r, i/5)
 		}
+		if i%5 == 3 {
+			subsetSeenDecided(run, r, i/5)
+		}
 	}
-	for _, k := range sortedKeys(run.Tags) {
-		_ = k
-	}
+	topicSweep(run, r)
+	fuzzSetup()
+	serialisationBlock(run, r) // last: on a hang the harness reports and exits
 }
 
 // p2pCase: the same honest message through the full pubsub entry point, with real envelopes and topics.
